@@ -1,4 +1,5 @@
 import GitSizer.Proofs.Meter
+import GitSizer.Gen.Cmds
 /-! # C18 — Progress reports the exact work done
     For EVERY interleaving of the ticker goroutines (live or stale, any timing) with the worker's
     `Start / Inc* / Done` sequence. The real timer, scheduler and Go memory model are not modelled;
@@ -28,5 +29,86 @@ theorem stale_tick_silent (m : M) (g : Nat) (hg : m.cur ≠ some g) (m' : M) (h 
 /-- non-vacuity: a stale tick between two phases, a live tick inside the second -/
 example : (run [.start, .inc, .tick 0, .inc, .done, .tick 0, .start, .tick 0, .inc, .tick 1, .done] init).map (·.out) =
     some [⟨1, 1, false⟩, ⟨1, 2, true⟩, ⟨2, 1, false⟩, ⟨2, 1, true⟩] := by decide
+
+/-! ## one `Inc()` per processed object, REGENERATED (sizes/graph.go)
+
+`Gen.Cmds.scanFlow` lists every statement of `ScanRepositoryUsingGraph` in source order with its
+branch path. The bracket structure of the progress phases is a decidable property of that list:
+between each `progressMeter.Start(…)` and the `progressMeter.Done()` that follows it there is exactly
+one loop; the loop body calls `progressMeter.Inc()` exactly once, in the same straight-line block as
+the call that processes the object (`graph.Register*`, `RecordCommit`) — or, in the references phase,
+unconditionally at the top of the body; the body contains no `continue`, its only `break` is the
+end-of-stream test `if !ok`, and every `return` in it returns an error (the scan fails and no final
+line is written). Hence in a successful scan #Inc of a phase = #objects processed in that phase, which
+`final_exact` turns into the number on the phase's final line and `C01.census_exact` into the census
+count. (Seeded change C18v — `Inc()` moved behind `if !root.Walk() { continue }` — breaks it.) -/
+
+abbrev Ev := String × String × List (String × String)
+
+/-- events of the scanning goroutine itself (not of the two feeder goroutines) -/
+def mainEvents (flow : List Ev) : List Ev := flow.filter (fun e => !(e.2.2.any (fun c => c.2 == "go")))
+
+def isStart (e : Ev) : Bool :=
+  e.1 == "call" && ["progressMeter.Start(\"Processing blobs: %d\")", "progressMeter.Start(\"Processing trees: %d\")",
+    "progressMeter.Start(\"Processing commits: %d\")", "progressMeter.Start(\"Matching commits to trees: %d\")",
+    "progressMeter.Start(\"Processing annotated tags: %d\")", "progressMeter.Start(\"Processing references: %d\")"].contains e.2.1
+def isDone (e : Ev) : Bool := e.1 == "call" && e.2.1 == "progressMeter.Done()"
+def isInc (e : Ev) : Bool := e.1 == "call" && e.2.1 == "progressMeter.Inc()"
+/-- the statements that process one object -/
+def isWork (e : Ev) : Bool :=
+  ["graph.RegisterBlob(obj.OID, obj.ObjectSize)", "err = graph.RegisterTree(obj.OID, tree)",
+   "graph.RegisterCommit(obj.OID, commit)", "graph.pathResolver.RecordCommit(commit.oid, commit.tree)",
+   "graph.RegisterTag(obj.OID, tag)", "graph.RegisterReference(refRoot.Reference(), refRoot.Groups())"].contains e.2.1
+
+/-- (Start event, events up to but excluding the next Done, that Done) for every phase -/
+def phases : List Ev → List (Ev × List Ev × Option Ev)
+  | [] => []
+  | e :: rest =>
+    if isStart e then
+      let body := rest.takeWhile (fun x => !isDone x)
+      (e, body, (rest.dropWhile (fun x => !isDone x)).head?) :: phases rest
+    else phases rest
+
+def isPrefixPath : List (String × String) → List (String × String) → Bool
+  | [], _ => true
+  | a :: as, b :: bs => a == b && isPrefixPath as bs
+  | _ :: _, [] => false
+
+def phaseOK (ph : Ev × List Ev × Option Ev) : Bool :=
+  let start := ph.1
+  let body := ph.2.1
+  let P := start.2.2
+  match ph.2.2, body with
+  | some done, loop :: _ =>
+    let L := loop.2.2
+    -- Start and Done in the same block; the body is one loop directly in that block
+    done.2.2 == P && loop.1 == "for" && L.length == P.length + 1 && isPrefixPath P L &&
+    body.all (fun e => isPrefixPath L e.2.2) &&
+    -- no nested phase, no continue; break only as `if !ok { break }` directly in the loop body
+    body.all (fun e => !isStart e && e.1 != "continue" && e.1 != "goto") &&
+    body.all (fun e => e.1 != "break" ||
+      (e.2.2.length == L.length + 1 && body.any (fun i => i.1 == "if" && i.2.1 == "!ok" && i.2.2.length == L.length + 1 &&
+        i.2.2.dropLast == L && (i.2.2.getLast?.map (·.1)) == (e.2.2.getLast?.map (·.1))))) &&
+    -- every return inside the phase is an error return
+    body.all (fun e => e.1 != "return") &&
+    -- exactly one Inc and one work statement, in the same straight-line block (or Inc unconditional)
+    (body.filter isInc).length == 1 && (body.filter isWork).length == 1 &&
+    (body.filter isInc).all (fun i => (body.filter isWork).all (fun w =>
+      i.2.2 == w.2.2 || (i.2.2 == L && isPrefixPath L w.2.2))) &&
+    -- the Inc sits directly in the loop body or directly in a case of a switch in the loop body
+    (body.filter isInc).all (fun i => i.2.2 == L || (i.2.2.dropLast == L && (i.2.2.getLast?.map (fun c => c.1.take 1)) == some "s"))
+  | _, _ => false
+
+/-- **six phases, each `Start … one loop … Done`, one `Inc()` per processed object** -/
+theorem one_inc_per_object :
+    ((phases (mainEvents Gen.Cmds.scanFlow)).map (fun ph => ph.1.2.1)).length = 6 ∧
+    (phases (mainEvents Gen.Cmds.scanFlow)).all phaseOK = true := by
+  constructor <;> decide +kernel
+
+/-- no `Inc()` outside the phases: as many `Inc()` statements as phases -/
+theorem incs_only_in_phases :
+    ((mainEvents Gen.Cmds.scanFlow).filter isInc).length = 6 ∧ ((mainEvents Gen.Cmds.scanFlow).filter isDone).length = 6 := by
+  constructor <;> decide +kernel
+
 
 end GitSizer.C18
